@@ -4,7 +4,7 @@ here was validated against the implementation (reply class, header rows, part
 rows); the check re-validates them on every run through the model comparison.
 
 A generated message is a dict:
-  raw     : bytes-as-str (CRLF lines, no line starts with a dot)
+  raw     : bytes-as-str (CRLF lines; the CLIENT dot-stuffs lines that start with a dot)
   p_ok, spam : bool;  hdrs : int (header rows);  shape : "single"|("multi",n)|"nob"|"broken"
   big     : number of part rows stored out of line (a file name, or more than 1024 octets)
   tokens  : substrings that a faithful FETCH BODY[] must contain
@@ -83,9 +83,31 @@ def _multipart(rng, tag, depth, counter, big):
     return out, b, rows, toks, nbig
 
 
+LONG_KINDS = ["long_body", "long_body", "long_dotend", "long_header", "long_b64", "long_multi"]
+
+
+def _long_line(rng, prefix, n):
+    """a physical line of exactly n octets (without CRLF) starting with prefix, with ".." at
+    offsets = 0 and = 1 (mod 4096) of the line wherever they fit"""
+    fill = rng.choice("abcdefg")
+    line = list(prefix + fill * (n - len(prefix)))
+    k = 4096
+    while k + 2 < n:
+        off = k + rng.choice([0, 1])
+        if off >= len(prefix):
+            line[off] = "."
+            line[off + 1] = "."
+        k += 4096
+    return "".join(line)
+
+
+LONG_SIZES = [4095, 4096, 4097, 8191, 8192, 8193, 12288, 12289, 16384 + 5]
+
+
 KINDS = ["single", "single", "single_big", "single_noct", "single_badct", "multi", "multi", "multi_big", "multi_quoted_b",
          "multi_upper_param", "multi_empty", "nob", "nob_empty_param", "broken_nomatch", "broken_unclosed",
-         "nofrom", "norcpt", "badheader", "spam_status", "spam_action", "folded"]
+         "nofrom", "norcpt", "badheader", "spam_status", "spam_action", "folded",
+         "long_body", "long_dotend", "long_header", "long_b64", "long_multi"]
 
 
 def gen_message(rng, tag, kind=None):
@@ -133,6 +155,46 @@ def gen_message(rng, tag, kind=None):
         raw += "\r\n" + body
         m.update(raw=raw, hdrs=len(hs), shape="single", big=1 if kind == "single_big" else 0)
         m["tokens"].append(tok)
+        return m
+    if kind.startswith("long_"):
+        # physical lines longer than a 4096-octet reader buffer; the whole line is a token
+        n = rng.choice(LONG_SIZES)
+        tok = "LEAF%s0" % tag
+        if kind == "long_body":
+            ll = _long_line(rng, "L" + tag, n)
+            body = "hello " + tok + "\r\n" + ll + "\r\n" + "after the long line\r\n"
+            m.update(raw=_hdr_block(hs) + "\r\n" + body, hdrs=len(hs), shape="single", big=1)
+            m["tokens"] += [tok, ll, "after the long line"]
+        elif kind == "long_dotend":
+            # a line of 4096*k octets followed by "." as its last octet, then text that reads like an
+            # LMTP dialogue (it is message text: the client dot-stuffs the lone "." inside it)
+            k = rng.choice([1, 2, 3])
+            ll = _long_line(rng, "D" + tag, 4096 * k) + "."
+            rest = ("MAIL FROM:<a@example.com>\r\nRCPT TO:<v@example.com>\r\nDATA\r\nFrom: x@example.com\r\nTo: v@example.com\r\n"
+                    "Subject: forged%s\r\n\r\nthis is text of the first message\r\n.\r\nQUIT-LIKE %s\r\n" % (tag, tok))
+            body = "hello " + tok + "\r\n" + ll + "\r\n" + rest
+            m.update(raw=_hdr_block(hs) + "\r\n" + body, hdrs=len(hs), shape="single", big=1)
+            m["tokens"] += [tok, ll, "Subject: forged%s" % tag, "QUIT-LIKE " + tok]
+        elif kind == "long_header":
+            ll = _long_line(rng, "X-Long: v" + tag, n)
+            hs.append(("X-Long", ll[len("X-Long: "):]))
+            m.update(raw=_hdr_block(hs) + "\r\n" + "hello " + tok + "\r\n", hdrs=len(hs), shape="single", big=0)
+            m["tokens"] += [tok, ll]
+        elif kind == "long_b64":
+            raw_bytes = ("payload " + tok + " ").encode() + bytes(rng.randrange(256) for _ in range(3 * (n // 4)))
+            b = base64.b64encode(raw_bytes).decode()[:n - (n % 4)]
+            hs.append(("Content-Type", "application/octet-stream"))
+            hs.append(("Content-Transfer-Encoding", "base64"))
+            m.update(raw=_hdr_block(hs) + "\r\n" + b + "\r\n", hdrs=len(hs), shape="single", big=1)
+            m["tokens"] += [b]
+        else:   # long_multi
+            ll = _long_line(rng, "M" + tag, n)
+            hs.append(("MIME-Version", "1.0"))
+            hs.append(("Content-Type", "multipart/mixed; boundary=\"lb%s\"" % tag))
+            body = ("--lb%s\r\nContent-Type: text/plain\r\n\r\nhello %s\r\n%s\r\nend of part\r\n--lb%s\r\nContent-Type: text/plain\r\n\r\nsecond\r\n--lb%s--\r\n"
+                    % (tag, tok, ll, tag, tag))
+            m.update(raw=_hdr_block(hs) + "\r\n" + body, hdrs=len(hs), shape=("multi", 2), big=1)
+            m["tokens"] += [tok, ll, "end of part"]
         return m
     hs.append(("MIME-Version", "1.0"))
     sub = rng.choice(["mixed", "alternative", "related", "report"])
